@@ -40,6 +40,7 @@ import EdbVerif.Lemmas.QuoteBytes
 import EdbVerif.Lemmas.QuoteIdent
 import EdbVerif.Lemmas.QuotePg
 import EdbVerif.Lemmas.QuotePgName
+import EdbVerif.Lemmas.QuotePgDollar
 import EdbVerif.Lemmas.QuoteAll
 import EdbVerif.Lemmas.QuoteDollarTotal
 import EdbVerif.Model.QuoteOld
@@ -313,6 +314,59 @@ theorem pg_name_counterexample (hash : List Char → List Char) :
     PgLex.lexIdent (pgQuoteIdentRaw n1) = .ok (.ident (List.replicate 21 (Char.ofNat 0x540d)), []) ∧
     PgLex.lexIdent (pgQuoteIdentRaw n2) = .ok (.ident (List.replicate 21 (Char.ofNat 0x540d)), []) := by
   refine ⟨by rfl, by rfl, by decide, by decide, by rfl, by rfl⟩
+
+/-! ## dbops: bodies inside FIXED dollar tags
+
+`PLTopBlock.to_string` wraps every DDL block in `DO LANGUAGE plpgsql $__$ … $__$`,
+`dbops.CreateFunction` wraps the function text in `$____funcbody____$ … $____funcbody____$`.
+The tags are constants: unlike `dollar_quote_literal` nothing checks that the
+body (which carries quoted literals: enum labels, annotation values, defaults,
+function source) does not contain them. -/
+
+/- FULL STATEMENT (false): ∀ body, lexDollarStr (wrap doName body ++ rest) = .ok (body, rest) -/
+
+/-- the `DO` body is read back exactly when `$__$` does not occur in `body ++ $__` -/
+theorem pg_do_block_partial (body rest : List Char)
+    (h : findSub ('$' :: PgLex.doName ++ ['$']) (body ++ '$' :: PgLex.doName) = none) :
+    PgLex.lexDollarStr (PgLex.wrap PgLex.doName body ++ rest) = .ok (body, rest) :=
+  PgLex.doTag_lex body rest h
+
+/-- the function text is read back exactly when the tag does not occur in `text ++ $____funcbody____` -/
+theorem pg_funcbody_partial (body rest : List Char)
+    (h : findSub ('$' :: PgLex.funcName ++ ['$']) (body ++ '$' :: PgLex.funcName) = none) :
+    PgLex.lexDollarStr (PgLex.wrap PgLex.funcName body ++ rest) = .ok (body, rest) :=
+  PgLex.funcTag_lex body rest h
+
+/-- a correctly quoted literal `'$__$'` (an enum label, say) inside the block ends the `DO` body:
+    PostgreSQL takes `'` as the body and continues with `'$__$` as top-level SQL;
+    same for the function-body tag -/
+theorem pg_do_block_counterexample :
+    PgLex.lexDollarStr (PgLex.wrap PgLex.doName (pgQuoteLiteral ['$', '_', '_', '$'])) =
+      .ok (['\''], ['\'', '$', '_', '_', '$']) ∧
+    PgLex.lexDollarStr (PgLex.wrap PgLex.funcName (pgQuoteLiteral ('$' :: PgLex.funcName ++ ['$']))) =
+      .ok (['\''], '\'' :: '$' :: PgLex.funcName ++ ['$']) := by
+  exact ⟨by rfl, by rfl⟩
+
+/-! ## Numeric names (`allow_num=True`: parameters, pointer position)
+
+`([1-9]\\d* | 0)` uses the Unicode `\\d`; the tokenizer reads ASCII digits only.
+(Integer tokens are outside `Model/Lex`; the parameter form `$name` is inside.) -/
+
+/-- `param_to_str('1٢')` = `$1٢` (U+0662 is a decimal digit for CPython): the
+    tokenizer reads the parameter `$1` and stops in front of `٢` -/
+theorem edgeql_param_counterexample (U : UClass) (P : PyUnicode)
+    (h1 : P.isdecimal (Char.ofNat 0x662) = true) (h2 : U.alpha (Char.ofNat 0x662) = false) :
+    paramToStr P ['1', Char.ofNat 0x662] = ['$', '1', Char.ofNat 0x662] ∧
+    lexOne U ['$', '1', Char.ofNat 0x662] = .ok (⟨.parameter, .str ['1']⟩, [Char.ofNat 0x662]) := by
+  have hd : pyIsDecimal P (Char.ofNat 0x662) = true := by simp only [pyIsDecimal]; simpa using h1
+  have ha : isAlpha U (Char.ofNat 0x662) = false := by simp only [isAlpha]; simpa using h2
+  have hns : Quote.hasNamespaceSep ['1', Char.ofNat 0x662] = false := by decide
+  have hmn : matchNum P ['1', Char.ofNat 0x662] = true := by simp [matchNum, hd]
+  constructor
+  · simp [paramToStr, quoteIdent, needsQuoting, hns, hmn, pyIsDecimal, isDigit]
+  · have ht : isTagChar U (Char.ofNat 0x662) = false := by
+      simp [isTagChar, ha, isDigit]
+    simp [lexOne, lexDollar, isAlpha, isAsciiLetter, isDigit, isTagChar, spanTag, h2]
 
 /-! ## What the fixes repaired
 
